@@ -104,10 +104,8 @@ def opTtl (impl : String) : P Verdict := do
   pure (distVerdict impl m (relSpec wf (ttlRel o s) penTtl) []
     s!"ttl:{ttlForm o}-{ttlForm s}:{showDist m}")
 
-def winKf (o s : WindowSize) (mss : Option Nat) : List String :=
-  kfNames [("KF.C12.modDivides", decide (KF.C12.modDivides o s)),
-           ("KF.C12.valueVsMod", decide (KF.C12.valueVsMod o s)),
-           ("KF.C12.windowMssFloor", decide (KF.C12.windowMssFloor o s mss))]
+/-- No open window class is left (the former three were repaired). -/
+def winKf (_o _s : WindowSize) (_mss : Option Nat) : List String := []
 
 /-- `C12.win <obs> <sig> <observed mss>` — `WindowSize::distance_window_size` -/
 def opWin (impl : String) : P Verdict := do
@@ -168,9 +166,8 @@ def opTcp (impl : String) : P Verdict := do
          tag := tcpTag s o m, model := model,
          spec := match spec with | none => "-" | some r => showDist r }
 
-def hdrKf (obs sig : List Header) : List String :=
-  kfNames [("KF.C12.headerRepeatedName", decide (KF.C12.headerRepeatedName sig)),
-           ("KF.C12.headerValueWildcard", decide (KF.C12.headerValueWildcard obs sig))]
+def hdrKf (_obs sig : List Header) : List String :=
+  kfNames [("KF.C12.headerRepeatedName", decide (KF.C12.headerRepeatedName sig))]
 
 def errTag (e : Nat) : String := if e ≤ 12 then toString e else "12+"
 
@@ -193,8 +190,6 @@ def opExpsw (impl : String) : P Verdict := do
 def httpKf (s : HttpSig) (o : HttpObs) : List String :=
   kfNames [("KF.C12.headerRepeatedName",
               decide (KF.C12.headerRepeatedName s.horder ∨ KF.C12.headerRepeatedName s.habsent)),
-           ("KF.C12.headerValueWildcard",
-              decide (KF.C12.headerValueWildcard o.horder s.horder ∨ KF.C12.headerValueWildcard o.habsent s.habsent)),
            ("KF.C12.expswReversed", decide (KF.C12.expswReversed o.expsw s.expsw))]
 
 /-- `C12.http <sig> <obs>` — `calculate_distance` (request and response impls, which must agree)
